@@ -393,12 +393,12 @@ func (w *world) runWith(r *hx.Run, c caseT, env []byte, priorEnv []byte) {
 		_, _ = v.Verify(ctx, w.desc, priorEnv, notation.VerifierVerifyOptions{ArtifactReference: "reg.io/r@" + w.desc.Digest.String(), SignatureMediaType: forge.Formats[c.Format]})
 	}
 	outcome, verr := v.Verify(ctx, w.desc, env, notation.VerifierVerifyOptions{ArtifactReference: "reg.io/r@" + w.desc.Digest.String(), SignatureMediaType: forge.Formats[c.Format]})
-	if outcome == nil {
-		bad("nil-outcome", fmt.Sprint(verr))
+	if outcome == nil && verr == nil {
+		bad("nil-outcome-on-success", "Verify returned neither an outcome nor an error")
 		return
 	}
-	rs := vt.ResultOf(outcome, trustpolicy.TypeAuthenticity)
-	if len(rs) != 1 {
+	rs := vt.ResultOf(outcome, trustpolicy.TypeAuthenticity) // nil outcome with an error: refused before authenticity
+	if len(rs) == 0 {
 		// integrity may have refused an exotic subject: that is failing closed too
 		r.Outcome("refused-before-authenticity")
 		if want && c.Subject.Clean && c.List.Judged {
@@ -406,7 +406,12 @@ func (w *world) runWith(r *hx.Run, c caseT, env []byte, priorEnv []byte) {
 		}
 		return
 	}
-	got := rs[0].Error == nil
+	got := true // several authenticity entries (the statement does not forbid them): passed means none carries an error
+	for _, x := range rs {
+		if x.Error != nil {
+			got = false
+		}
+	}
 	if !c.List.Judged {
 		r.Outcome(fmt.Sprintf("extension:%s:passed=%v(not judged)", c.List.Label, got))
 		return
@@ -433,8 +438,11 @@ func (w *world) runWith(r *hx.Run, c caseT, env []byte, priorEnv []byte) {
 		r.Outcome(class + ":failed")
 		r.Nontrivial(fmt.Sprintf("%s|%s|%d", c.Subject.Label, c.List.Label, c.Format))
 	}
-	if got != (verr == nil) {
-		bad("verdict-differs-from-authenticity", fmt.Sprintf("authenticity passed=%v, verification error=%v", got, verr))
+	if !got && verr == nil {
+		bad("verdict-differs-from-authenticity", "authenticity failed under the strict level but verification succeeded")
+	}
+	if got && verr != nil {
+		r.Outcome("recorded:authenticity-passed-but-verification-failed-for-another-reason")
 	}
 }
 
